@@ -90,29 +90,49 @@ theorem arg_text_decodes (O : Oracles) (hf : Upnp.C08.FloatOps.RoundTrips O) (ro
         | .ok w => w == Upnp.C08.expectBack row.ty v | .error _ => false) = true
   rw [h2]; simp
 
+/-- the same on the widened domain `inDom` (C08's `rtDomain`, plus a `datetime` given for a `date`
+    argument): rendered, and the rendered text decodes to the supplied value -/
+theorem arg_text_decodes_inDom (O : Oracles) (hf : Upnp.C08.FloatOps.RoundTrips O) (row : TypeRow)
+    (hrow : row ∈ C08Types.rows) (v : PyVal) (hv : inDom row.ty v = true) :
+    ∃ t, coerceUpnp O row v = .ok t
+      ∧ xmlDecodeText (escape C06Types.escapeExtra t) = some t
+      ∧ decodesTo O row t v = true := by
+  obtain ⟨t, h1, h2⟩ := roundtrip_inDom O hf row hrow v hv
+  exact ⟨t, h1, escape_lossless t, h2⟩
+
 /-! ### URL -/
 
 /-- a control URL written as an absolute path is resolved to the device URL's scheme and authority
     followed by that path, and the `Host` header the model sends (netloc of the resolved URL) is the
     device URL's authority — for every device URL with a scheme and every plain absolute path -/
 theorem control_url_abs_path (base sch r : Str) (hb : schemeOf base = some (sch, r))
+    (hlow : lowerScheme sch = true)
     (c : Char) (t : Str) (hc : c ≠ '/') (hp : plainPath ('/' :: c :: t) = true) :
     urljoin base ('/' :: c :: t) = some (sch ++ "://".toList ++ netloc base ++ '/' :: c :: t)
     ∧ netloc (sch ++ "://".toList ++ netloc base ++ '/' :: c :: t) = netloc base :=
-  urljoin_abs_path base sch r _ hb c t rfl hc hp
+  urljoin_abs_path base sch r _ hb hlow c t rfl hc hp
 
-/-- an absolute control URL is used as it is -/
-theorem control_url_absolute (base ref : Str) (hb : (schemeOf base).isSome = true)
-    (hr : (schemeOf ref).isSome = true) : urljoin base ref = some ref := by
+/-- an absolute control URL (`scheme://…`, lower-case scheme) is used as it is -/
+theorem control_url_absolute (base ref bs br rs rr : Str) (hb : schemeOf base = some (bs, br))
+    (hbl : lowerScheme bs = true) (hr : schemeOf ref = some (rs, rr)) (hrl : lowerScheme rs = true) :
+    urljoin base ref = some ref := by
   unfold urljoin
-  cases h : schemeOf base with
-  | none => simp [h] at hb
-  | some p =>
-    have hne : ref.isEmpty = false := by
-      cases ref with
-      | nil => simp [schemeOf] at hr
-      | cons _ _ => rfl
-    simp [hne, hr]
+  have hne : ref.isEmpty = false := by
+    cases ref with
+    | nil => simp [schemeOf] at hr
+    | cons _ _ => rfl
+  simp [hb, hbl, hne, hr, hrl]
+
+/-- what the URL model does NOT claim: a reference that `urlsplit` would take for an absolute URL of
+    another scheme (`x:y`, `c:d/e`) and an upper-case scheme are outside the modelled grammar (`none`:
+    nothing is proved or judged about the URL there) — Python returns such a reference unchanged and
+    lower-cases the scheme, which this model does not reproduce -/
+theorem url_model_limits :
+    urljoin "http://h:80/a/b".toList "x:y".toList = none
+    ∧ urljoin "http://h:80/a/b".toList "c:d/e".toList = none
+    ∧ urljoin "HTTP://h:80/x".toList "/ctl".toList = none
+    ∧ urljoin "http://h:80/a/b".toList "sub/c:d".toList = some "http://h:80/a/sub/c:d".toList := by
+  refine ⟨?_, ?_, ?_, ?_⟩ <;> decide +kernel
 
 /-! ### validation -/
 
@@ -131,6 +151,43 @@ theorem accepts_iff (O : Oracles) (strict : Bool) (d : VarDecl) (v : PyVal) (sc 
   rw [h]
   simp only [Option.map_some, Option.some.injEq]
   exact Upnp.C08.accept_iff O d.row.ty d.row.requireTz { min := sc.min, max := sc.max, allowed := sc.allowed } v
+
+/-- **Acceptance from the declared TEXTS** (independent of what the schema builder computes): for
+    every row of the generated table and a strict-mode declaration whose minimum, maximum and
+    allowed values are written as the wire forms of in-domain values `lo`, `hi`, `a0 :: al`, a value
+    is accepted iff it has the declared class (`bool ⊑ int`, `datetime ⊑ date`), is aware where the
+    type demands it, equals (Python `==`) one of the allowed values and lies within `lo … hi`
+    (Python `<=`) — C08's `wire_declaration_denotes` + `mkSchema_denotes` + `accept_iff`. -/
+theorem accepts_declared (O : Oracles) (hf : Upnp.C08.FloatOps.RoundTrips O) (row : TypeRow)
+    (hrow : row ∈ C08Types.rows) (lo hi : PyVal) (al : List PyVal) (a0 v : PyVal)
+    (hlo : Upnp.C08.rtDomain row.ty lo = true) (hhi : Upnp.C08.rtDomain row.ty hi = true)
+    (hlo' : Upnp.C08.wire O lo ≠ []) (hhi' : Upnp.C08.wire O hi ≠ [])
+    (hal : ∀ x ∈ a0 :: al, Upnp.C08.rtDomain row.ty x = true) :
+    accepts O true { row := row, decl := { range := some (some (Upnp.C08.wire O lo), some (Upnp.C08.wire O hi)),
+                                           allowed := some ((a0 :: al).map (Upnp.C08.wire O)), default := none } } v
+        = some true
+    ↔ (v.isInstance row.ty = true
+      ∧ (row.requireTz = true → v.hasTz = some true)
+      ∧ (∃ a ∈ a0 :: al, Upnp.C08.pyEq O v (Upnp.C08.expectBack row.ty a) = true)
+      ∧ Upnp.C08.pyLe O (Upnp.C08.expectBack row.ty lo) v = some true
+      ∧ Upnp.C08.pyLe O v (Upnp.C08.expectBack row.ty hi) = some true) := by
+  have hd := Upnp.C08.wire_declaration_denotes O hf row hrow lo hi al a0 hlo hhi hlo' hhi' hal
+  have hm := Upnp.C08.mkSchema_denotes O C08Types.table row _ _ hd rfl
+  unfold accepts schemaOf
+  show (match Upnp.C08.mkSchema O C08Types.table row true _ with | .ok sc => some sc | .error _ => none).map _ = some true ↔ _
+  rw [hm]
+  simp only [Option.map_some, Option.some.injEq]
+  rw [Upnp.C08.accept_iff]
+  constructor
+  · rintro ⟨h1, h2, h3, h4, h5⟩
+    obtain ⟨a, ha, hae⟩ := h3 _ rfl
+    obtain ⟨x, hx, rfl⟩ := List.mem_map.mp ha
+    exact ⟨h1, h2, ⟨x, hx, hae⟩, h4 _ rfl, h5 _ rfl⟩
+  · rintro ⟨h1, h2, ⟨x, hx, hxe⟩, h4, h5⟩
+    refine ⟨h1, h2, ?_, ?_, ?_⟩
+    · intro l hl; cases hl; exact ⟨_, List.mem_map.mpr ⟨x, hx, rfl⟩, hxe⟩
+    · intro m hm'; cases hm'; exact h4
+    · intro m hm'; cases hm'; exact h5
 
 /-- the schema the factory builds (`C08.mkSchema` / `Schema.check`) decides exactly that predicate -/
 theorem schema_is_accepts (O : Oracles) (strict : Bool) (d : VarDecl) (v : PyVal) :
@@ -360,13 +417,62 @@ example :
   refine ⟨hrows d hd, ?_⟩
   have hall : ∀ d ∈ exAction.inArgs,
       (match exKw.lookup d.name with
-       | some w => Upnp.C08.rtDomain d.var.row.ty w
+       | some w => inDom d.var.row.ty w
        | none => true) = true := by
     decide +kernel
   intro v hv
   have := hall d hd
   rw [hv] at this
   exact this
+/-- a `datetime` given for a `date` argument is inside the proved domain (`inDom`), is rendered with
+    `isoformat()` and decodes back to itself -/
+example :
+    inDom (rowOf "date").ty (.datetime ⟨987, 2, 28⟩ ⟨1, 2, 3⟩ (some (-330))) = true
+    ∧ (match coerceUpnp exO (rowOf "date") (.datetime ⟨987, 2, 28⟩ ⟨1, 2, 3⟩ (some (-330))) with
+       | .ok t => t == "0987-02-28T01:02:03-05:30".toList | .error _ => false) = true
+    ∧ decodesTo exO (rowOf "date") "0987-02-28T01:02:03-05:30".toList (.datetime ⟨987, 2, 28⟩ ⟨1, 2, 3⟩ (some (-330))) = true := by
+  refine ⟨?_, ?_, ?_⟩ <;> decide +kernel
+private def goodObs : Obs := modelObs genAnc (asyncCallSend exO C06Types.escapeExtra C06Types.nsAttrQuoted exAction exKw)
+
+/-- apply `f` to the argument elements inside Envelope/Body/action -/
+private def onArgs (f : List Xml → List Xml) : Xml → Xml
+  | .node e et [.node b bt [.node a at' args]] => .node e et [.node b bt [.node a at' (f args)]]
+  | x => x
+
+private def setHdr (g : Obs) (k v : String) : List (Str × Str) :=
+  g.headers.map fun p => if p.1 == k.toList then (p.1, v.toList) else p
+private def setTree (g : Obs) (f : List Xml → List Xml) : Option Xml := g.tree.map (onArgs f)
+
+private def badKw : Kwargs := ("DesiredVolume".toList, .int 101) :: exKw
+private def libErr : ExcInfo := { cls := "UpnpValueError", mro := genAnc "UpnpValueError" }
+
+/-- **The judge is not trivially true**: the model's observation passes, and each single deviation
+    from what the text demands is REJECTED by `C06.ok` (evaluated on the judge itself). -/
+example :
+    (fun (g : Obs) =>
+      [ ok exO exAction exKw g,
+        ok exO exAction exKw { g with sent := 2 },
+        ok exO exAction exKw { g with sent := 0 },
+        ok exO exAction exKw { g with method := "GET".toList },
+        ok exO exAction exKw { g with url := "http://192.168.1.10:8080/ctl/other".toList },
+        ok exO exAction exKw { g with headers := g.headers.filter (fun p => p.1 != "Host".toList) },
+        ok exO exAction exKw { g with headers := setHdr g "Host" "192.168.1.10" },
+        ok exO exAction exKw { g with headers := setHdr g "SOAPAction" "urn:acme&co:service:R\"C:1#SetVolume" },
+        ok exO exAction exKw { g with headers := setHdr g "Content-Type" "text/plain" },
+        ok exO exAction exKw { g with tree := none },
+        ok exO exAction exKw { g with tree := setTree g List.reverse },
+        ok exO exAction exKw { g with tree := setTree g (List.drop 1) },
+        ok exO exAction exKw { g with tree := setTree g (fun l => l ++ l.take 1) },
+        ok exO exAction exKw { g with tree := setTree g (List.map fun x => .node x.tag (some ['x']) x.children) },
+        -- refusal: nothing sent AND the library's error
+        ok exO exAction badKw { sent := 0, err := some libErr },
+        ok exO exAction badKw { sent := 0, err := some { cls := "RAW:ValueError", mro := [] } },
+        ok exO exAction badKw { sent := 0, err := none },
+        ok exO exAction badKw { g with err := some libErr },
+        ok exO exAction badKw g ]) goodObs
+    = [true, false, false, false, false, false, false, false, false, false, false, false, false, false,
+       true, false, false, false, false] := by
+  decide +kernel
 end Example
 
 
